@@ -7,6 +7,7 @@ import Driver.Lineage
 import Driver.Front
 import Driver.Meta
 import Driver.Cli
+import Driver.Io
 /-
   oxidriver: line protocol over the executable model.
   One request per line: `<op> <arg> ...`; one answer line per request.
@@ -14,7 +15,7 @@ import Driver.Cli
 -/
 namespace Driver
 
-def handlers : List (List String → Option String) := [handleFilters, handleGeom, handleEval, handleDecision, handleReduce, handleLineage, handleFront, handleMeta, handleCli]
+def handlers : List (List String → Option String) := [handleFilters, handleGeom, handleEval, handleDecision, handleReduce, handleLineage, handleFront, handleMeta, handleCli, handleIo]
 
 def handle (args : List String) : String :=
   match handlers.findSome? (fun h => h args) with
